@@ -125,6 +125,11 @@ Contents(s, i, f) ==
 (* the bytes a string item is declared with (API: str.s/str.len; text: the characters between the quotes) *)
 Declared(s, i) == IF s[i].k = "str" THEN StrPayloads[s[i].n] ELSE <<>>
 
+(* Every named data-like item is exported (`export x` after the sequence).  A module loaded afterwards that      *)
+(* imports x sees it at Addr(x) = the address of the named item, i.e. the START of the section x heads: the      *)
+(* harness gives that module `ref x, 3` items and compares them with Addr(x) + 3 of this layout.                 *)
+Visible(s, i) == IsData(s[i]) /\ s[i].nm
+
 WF(s) == \A i \in 1..Len(s) :
   /\ (s[i].k = "ref" /\ s[i].tg = "prev") => i > 1 /\ IsData(s[i - 1])
   /\ (s[i].k = "ref" /\ s[i].tg = "next") => i < Len(s) /\ IsData(s[i + 1]) /\ s[i + 1].nm
@@ -161,7 +166,8 @@ Case(s, f) == [form |-> f,
                lay |-> Layout(s, f),
                secs |-> [i \in 1..Len(s) |-> IF Starts(s, i) THEN <<SecSize(s, i, f), Cardinality(Members(s, i))>> ELSE <<>>],
                exp |-> [i \in 1..Len(s) |-> Contents(s, i, f)],
-               decl |-> [i \in 1..Len(s) |-> Declared(s, i)]]
+               decl |-> [i \in 1..Len(s) |-> Declared(s, i)],
+               xp |-> [i \in 1..Len(s) |-> IF Visible(s, i) THEN 1 ELSE 0]]
 Emit == (Len(items') >= Plan[stage].minEmit /\ WF(items')) =>
           /\ EmitJ(Case(items', "api"))
           /\ (HasStr(items') => EmitJ(Case(items', "text")))
